@@ -74,22 +74,51 @@ SubCls(i, s) ==
 
 \* ---- the verdict ---------------------------------------------------------------------------
 IsFlag(n) == \E k \in 1..7 : FlagIds[k] = n
-AffOK(a) == /\ a.k = "aff" /\ WellTyped(a)
-            /\ (a.a[1].k = "id" /\ ~IsFlag(a.a[1].n) => Width(a.a[2]) = a.a[1].w)       \* flags take any width (value must be 0/1)
-            /\ (a.a[1].k = "mem" => Width(a.a[2]) = a.a[1].w /\ a.a[1].w \in {8, 16, 32})
+\* IR!WellTyped without the width-agreement rules (operands of a binary operator, arms of a condition): such trees are
+\* reported as C04.welltyped but still have a value under IR!Eval (operands are extended / truncated to the width of the first)
+RECURSIVE Loose(_)
+Loose(e) ==
+  CASE e.k = "int" -> e.w >= 1 /\ IsBV(e.v, e.w)
+    [] e.k = "id" -> e.w >= 1
+    [] e.k = "mem" -> /\ e.w >= 8 /\ e.w % 8 = 0 /\ Len(e.a) = 1 /\ Loose(e.a[1]) /\ e.a[1].k # "aff" /\ Width(e.a[1]) >= 1
+                      /\ \A j \in 1..Len(e.g) : Loose(e.g[j]) /\ e.g[j].k # "aff"
+    [] e.k = "op" -> /\ Len(e.a) >= 1
+                     /\ \A j \in 1..Len(e.a) : Loose(e.a[j]) /\ e.a[j].k # "aff" /\ Width(e.a[j]) >= 1
+                     /\ (e.o \in ACOps \cup {"=="} => Len(e.a) >= 2)
+                     /\ (e.o = "-" => Len(e.a) \in {1, 2})
+                     /\ (e.o \in Shifts \cup {"=="} => Len(e.a) = 2)
+                     /\ (e.o \in {"parity", "!"} => Len(e.a) = 1)
+                     /\ (e.o \in DivOps \cup RcOps => Len(e.a) = 3)
+                     /\ (e.o \in MulOps => Len(e.a) = 2)
+    [] e.k = "cond" -> Len(e.a) = 3 /\ \A j \in 1..3 : Loose(e.a[j]) /\ e.a[j].k # "aff" /\ Width(e.a[j]) >= 1
+    [] e.k = "slice" -> /\ Len(e.a) = 1 /\ Loose(e.a[1]) /\ e.a[1].k # "aff"
+                        /\ 0 <= e.lo /\ e.lo < e.hi /\ e.hi <= Width(e.a[1])
+    [] e.k = "compose" -> /\ Len(e.a) >= 1 /\ Len(e.a) = Len(e.s)
+                          /\ \A j \in 1..Len(e.a) : /\ Loose(e.a[j]) /\ e.a[j].k # "aff"
+                                                    /\ Width(e.a[j]) >= e.s[j][2] - e.s[j][1]
+                                                    /\ e.s[j][1] >= 0 /\ e.s[j][2] > e.s[j][1]
+                          /\ Tiles(e.s, Width(e))
+    [] OTHER -> FALSE
+AffWidths(a) == /\ (a.a[1].k = "id" /\ ~IsFlag(a.a[1].n) => Width(a.a[2]) = a.a[1].w)       \* flags take any width (value must be 0/1)
+                /\ (a.a[1].k = "mem" => Width(a.a[2]) = a.a[1].w /\ a.a[1].w \in {8, 16, 32})
+AffOK(a) == a.k = "aff" /\ WellTyped(a) /\ AffWidths(a)
+AffLoose(a) == /\ a.k = "aff" /\ Len(a.a) = 2 /\ a.a[1].k \in {"id", "mem"} /\ a.a[2].k # "aff"
+               /\ Loose(a.a[1]) /\ Loose(a.a[2]) /\ AffWidths(a)
 Verdict(rec) ==
    LET ins == rec.i IN
    IF rec.next # Add(rec.eip, Const(ins.len), 32) THEN [v |-> <<[clause |-> "input.next"]>>, cmp |-> 0, flt |-> 0]
    ELSE IF rec.st # "ok" THEN [v |-> <<[clause |-> "C04.lift", sub |-> "", nbad |-> rec.ns, k |-> 0]>>, cmp |-> 0, flt |-> 0]
    ELSE
    LET affs == rec.affs
-       okj == {j \in 1..Len(affs) : AffOK(affs[j])}
-       badj == (1..Len(affs)) \ okj
+       okj == {j \in 1..Len(affs) : AffLoose(affs[j])}          \* evaluated
+       badj == (1..Len(affs)) \ okj                            \* not evaluable: their destinations are not compared
+       illj == {j \in 1..Len(affs) : ~AffOK(affs[j])}           \* reported as C04.welltyped (superset of badj)
+       dstOf(j) == IF affs[j].k = "aff" /\ Len(affs[j].a) >= 1 THEN (IF affs[j].a[1].k = "id" THEN affs[j].a[1].n ELSE "@mem") ELSE "@all"
        RECURSIVE sel(_)
        sel(j) == IF j > Len(affs) THEN <<>> ELSE IF j \in okj THEN <<affs[j]>> \o sel(j + 1) ELSE sel(j + 1)
        good == sel(1)
        \* destinations of unusable assignments are not compared (C04.welltyped is reported instead)
-       skipd == {IF affs[j].k = "aff" /\ Len(affs[j].a) >= 1 THEN (IF affs[j].a[1].k = "id" THEN affs[j].a[1].n ELSE "@mem") ELSE "@all" : j \in badj}
+       skipd == {dstOf(j) : j \in badj}
        ids == UNION {Ids(good[j].a[2]) \cup (IF good[j].a[1].k = "mem" THEN Ids(good[j].a[1]) ELSE {}) : j \in 1..Len(good)}
        extra == ids \ Modelled
        S == TLCEval([k \in 1..rec.ns |-> [GenState(ins, rec.sd, k) EXCEPT !.eip = rec.eip]])
@@ -130,7 +159,8 @@ Verdict(rec) ==
        RECURSIVE list(_)
        list(ps) == IF ps = {} THEN <<>> ELSE LET p == CHOOSE p \in ps : TRUE IN <<entry(p)>> \o list(ps \ {p})
    IN [cmp |-> Cardinality(live), flt |-> rec.ns - Cardinality(live), v |->
-      (IF badj = {} THEN <<>> ELSE <<[clause |-> "C04.welltyped", sub |-> "", nbad |-> Cardinality(badj), k |-> CHOOSE j \in badj : TRUE, dst |-> skipd]>>)
+      (IF illj = {} THEN <<>> ELSE <<[clause |-> "C04.welltyped", sub |-> "", nbad |-> Cardinality(illj), k |-> CHOOSE j \in illj : TRUE,
+                                        dst |-> {dstOf(j) : j \in illj}, notevaluated |-> skipd]>>)
       \o (IF extra = {} THEN <<>> ELSE <<[clause |-> "C04.reads", sub |-> "", nbad |-> Cardinality(extra), k |-> 0, names |-> extra]>>)
       \o list(fails)]
 VARIABLES i, ncmp, nflt
